@@ -64,7 +64,8 @@ def als_case(draw):
          'repeats': draw(st.integers(1, 4)), 'guess': draw(st.sampled_from(['maximal', 'rank1', 'admissible', 'exact'])),
          'n_prev': draw(st.sampled_from([0, 0, 1, 2])), 'shift': draw(st.sampled_from([-1.0, 0.5, 2.0])),
          'sigma_mode': draw(st.sampled_from(['above', 'above', 'inside', 'default'])),
-         'real': draw(st.sampled_from([True, True, False])), 'conv_eps': draw(st.sampled_from([0, 0, 0, 1e-9]))}
+         'real': draw(st.sampled_from([True, True, False])), 'conv_eps': draw(st.sampled_from([0, 0, 0, 1e-9])),
+         'prev_norm': draw(st.sampled_from([1.0, 1.0, 0.4, 1.7, 2.5]))}
     if c['guess'] == 'admissible':
         c['ranks'] = admissible(draw, dims, lo=2)
     if c['n_prev']:
@@ -100,7 +101,8 @@ def setup(c):
     for r in c.get('prev_ranks', []):
         pc = rnd_cores(rng, dims, r, cplx)
         pv = dense.matrix(pc).reshape(-1)
-        nrm = np.linalg.norm(pv)
+        # deflation tensors of any norm: the term added is shift * p p^H for the tensor p that was handed over
+        nrm = np.linalg.norm(pv) / c.get('prev_norm', 1.0)
         pc[0] = pc[0] / nrm
         prev.append(TT(pc))
         P.append(pv / nrm)
@@ -165,6 +167,8 @@ def body_als(c):
         lab.add('order1')
     if prev:
         lab.add('deflation')
+        if c.get('prev_norm', 1.0) != 1.0:
+            lab.add('deflation_tensor_not_normalised')
     if B is not None:
         lab.add('generalised')
     scale = max(abs(w[0]), abs(w[-1]), 1.0)
